@@ -55,11 +55,14 @@ class Module:
                 for sub in ([n.body] + ([n.orelse] if n.orelse else []) +
                             ([h.body for h in n.handlers] if isinstance(n, ast.Try) else [])):
                     saved = (dict(self.defs), dict(self.classes), dict(self.assigns), dict(self.imports))
+                    before = set().union(*[set(t) for t in saved])
                     self._index(sub)
                     for cur, old in zip((self.defs, self.classes, self.assigns, self.imports), saved):
                         for k in list(cur):
                             if k in old:
                                 cur[k] = old[k]
+                            elif k in before:
+                                del cur[k]      # bound earlier under another kind (import vs def): the first binding wins
 
 
 class Frontend:
